@@ -18,7 +18,7 @@ genoverlay() {
       first=0
       printf '"%s/zzverif/%s":"%s/mc/%s"' "$REPO_DIR" "$f" "$VERIF_DIR" "$f"
     done
-    printf '}}\n'; } > "$out.tmp" && mv "$out.tmp" "$out"
+    printf '}}\n'; } > "$out.tmp.$$" && mv "$out.tmp.$$" "$out"
   echo "$out"
 }
 # buildprop <lc-id> [extra go build flags...]
